@@ -108,13 +108,15 @@ Fixpoint ifold_run (f : fn) (v : view) (is : list nat) (acc : Z) : prog :=
                             end
                 end)
   end.
+(* A constant operand that is not an integer is a compile error, but the stage keeps the left-to-right
+   order of the checks (fixes/C10-int-operand-order.patch): the bad constant fails at its own position *)
 Definition p_ifold (f : fn) (v : view) : prog :=
   argc v (atleast 2)
-    (if const_bad v then Fail ErrorNum
-     else typed_int v 0 (fun o => match o with
-                                  | None => Done ErrorNum
-                                  | Some a => ifold_run f v (seq 1 (length v - 1)) a
-                                  end)).
+    (let q := typed_int v 0 (fun o => match o with
+                                      | None => Done ErrorNum
+                                      | Some a => ifold_run f v (seq 1 (length v - 1)) a
+                                      end) in
+     if const_bad v then Err q else q).
 
 (* ---- funcsComparators.go ---- *)
 Definition p_if (v : view) : prog :=
@@ -139,16 +141,16 @@ Fixpoint strcmp_run (neg : bool) (is : list nat) (val : bytes) : prog :=
 Definition p_strcmp (neg : bool) (v : view) : prog :=
   argc v (atleast 2) (Eval 0 (fun a => strcmp_run neg (seq 1 (length v - 1)) a)).
 Definition p_not := eval1 (fun a => tstr (negb (truthy a))).
-(* kfAnd / kfOr compare with FalsyVal ("") *)
+(* kfAnd / kfOr: truthy logic (after the repair of C11-andor-emptiness), stopping at the first decisive argument *)
 Fixpoint and_run (is : list nat) : prog :=
   match is with
   | [] => Done TruthyVal
-  | i :: r => Eval i (fun x => if nonemp x then and_run r else Done FalsyVal)
+  | i :: r => Eval i (fun x => if truthy x then and_run r else Done FalsyVal)
   end.
 Fixpoint or_run (is : list nat) : prog :=
   match is with
   | [] => Done FalsyVal
-  | i :: r => Eval i (fun x => if nonemp x then Done TruthyVal else or_run r)
+  | i :: r => Eval i (fun x => if truthy x then Done TruthyVal else or_run r)
   end.
 Definition p_and (v : view) := and_run (seq 0 (length v)).
 Definition p_or (v : view) := or_run (seq 0 (length v)).
@@ -315,7 +317,7 @@ Definition std_env : env := std_env_gen true.
 (* the constructor returned an error (Compile then reports it) *)
 Definition ctor_err (c0 : Z) (d : fdef) (args : list stage) : bool :=
   match d with
-  | FHelper h => match h_body h c0 (map (static c0) args) with Fail _ => true | _ => false end
+  | FHelper h => match h_body h c0 (map (static c0) args) with Fail _ => true | Err _ => true | _ => false end
   | FUser _ => false
   end.
 
